@@ -1,7 +1,8 @@
 (* C04 — property theorems. Statements only, each closed by `exact <lemma>`, Print Assumptions beneath,
    then the non-vacuity examples and the refutations of the unrepaired code (…_v0). *)
 From Coq Require Import Lia ZifyN ZifyNat.
-From C04 Require Import Model CaseDefs ProofsBase ProofsChunk ProofsSealed ProofsFetch ProofsPos ProofsPhys ProofsMain ProofsSpec.
+From C04 Require Import Model ModelSlots CaseDefs ProofsBase ProofsChunk ProofsSealed ProofsFetch ProofsPos ProofsPhys ProofsMain ProofsSpec.
+From C04 Require ModelDocsCache ProofsDocsCache ProofsSlots ProofsCases.
 Open Scope N_scope.
 
 (* thm:C04_fetch_exact — for every configuration (IDs per block >= 1, initial chunk >= 1), every corpus split
@@ -320,6 +321,105 @@ Example C04_pruning_v0_refuted :
   stream ex_g [ex_fd] [((1090000,7),0); ((max64,max64),0); ((0,0),0)]
     = SOk [((1090000,7), Some (2,20)); ((max64,max64), None); ((0,0), None)].
 Proof. repeat split; vm_compute; reflexivity. Qed.
+
+(* ------------------------------------------------------------------ the docs block cache (disk/docs_reader.go)
+   thm:C04_docs_cache_transparent — disk.DocsReader.ReadDocsFunc in front of cache.Cache.GetWithError, as
+   repaired by 871e0d8 (block offsets above MaxUint32 bypass the cache, whose key is a uint32): for every file
+   (any partial map from byte offsets to decoded blocks, offsets of ANY size), from the empty cache and after
+   ANY sequence of reads and evictions (cleaner passes, Reset), every read returns the block stored at the
+   requested offset — or the read error of that offset — exactly as a reader without a cache does. *)
+Theorem C04_docs_cache_transparent : forall (B : Type) (blk : N -> option B) ops,
+  ModelDocsCache.run B blk [] ops = ModelDocsCache.direct B blk ops.
+Proof. exact ProofsCases.docs_cache_transparent_nil. Qed.
+Print Assumptions C04_docs_cache_transparent.
+
+(* the same from every cache state in which each entry holds the block stored at the offset equal to its key (the
+   invariant every reachable state satisfies: ProofsDocsCache.read_exact, inv_remove) *)
+Theorem C04_docs_cache_transparent_inv : forall (B : Type) (blk : N -> option B) ops c,
+  ProofsDocsCache.Inv B blk c -> ModelDocsCache.run B blk c ops = ModelDocsCache.direct B blk ops.
+Proof. exact ProofsDocsCache.run_transparent. Qed.
+Print Assumptions C04_docs_cache_transparent_inv.
+
+(* link to the correspondence run: the specification checker evaluated on the implementation's reads
+   (CaseDefs.case_spec_ok, class docs-cache-far-offset) accepts the model's reads for every file and every
+   operation list, and the model agrees with itself (keys included) *)
+Theorem C04_docs_cache_meets_spec : forall blocks ops keys,
+  case_spec_ok (CDocsCache blocks ops
+                  (ModelDocsCache.run N (dc_blk blocks) [] (flat_map (dc_expand blocks) ops)) keys) = true.
+Proof. exact ProofsCases.docs_cache_meets_spec. Qed.
+Print Assumptions C04_docs_cache_meets_spec.
+
+(* the reader before 871e0d8 (key = uint32(blockOffset) for every offset): the blocks at offsets 100 and
+   100 + 2^32 share one cache entry, the second read returns the first block *)
+Example C04_docs_cache_v0_refuted :
+  exists (blk : N -> option N) ops, ModelDocsCache.run_v0 N blk [] ops <> ModelDocsCache.direct N blk ops.
+Proof. exact ProofsDocsCache.docs_cache_v0_refuted. Qed.
+Example C04_docs_cache_v0_witness :
+  let blk := dc_blk [(100, 1); (100 + 4294967296, 2)] in
+  ModelDocsCache.run_v0 N blk [] [ModelDocsCache.Read 100; ModelDocsCache.Read (100 + 4294967296)] = [Some 1; Some 1] /\
+  ModelDocsCache.run N blk [] [ModelDocsCache.Read 100; ModelDocsCache.Read (100 + 4294967296)] = [Some 1; Some 2].
+Proof. split; vm_compute; reflexivity. Qed.
+
+(* ------------------------------------------------------------------ the Fetcher's worker slots (fetcher.go)
+   thm:C04_fetch_slots_returned — "never hang the store" over request SEQUENCES.  One long-lived Fetcher with
+   W >= 1 worker slots (conf.FetchWorkers) serves ANY history of FetchDocs calls: every call with any candidate
+   fractions whose fetches succeed, fail or panic (converted to an error), with a context that is live or already
+   done at the call, under ANY interleaving of the dispatch loop with its workers and ANY moments of client
+   cancellation (schedule ms; a move that is not enabled is skipped).  Then every call has returned and left
+   no slot in use, and a following call with a live context over healthy fractions returns without error and
+   leaves no slot in use — whatever its interleaving. *)
+Theorem C04_fetch_slots_returned : forall W h fr ms, 1 <= W -> Forall (eq WOk) fr -> ~ In MCancel ms ->
+  Forall (fun o : obs => fst (fst o) = 0 /\ snd (fst o) = true) (history false W 0 h) /\
+  history false W 0 (h ++ [(fr, false, ms)]) = history false W 0 h ++ [(0, true, false)].
+Proof. exact ProofsSlots.fetch_slots_returned. Qed.
+Print Assumptions C04_fetch_slots_returned.
+
+(* safety under every schedule, also next to slots held by others (u): each running worker of a call holds exactly
+   one slot and nothing else of the call does; so whenever the call returns, the slots in use are those in use
+   before it *)
+Theorem C04_fetch_slots_every_schedule : forall W u fr cd ms,
+  let s := exec false W (start u fr cd) ms in
+  in_use s = u + N.of_nat (length (running s)) /\ (finished s = true -> in_use s = u).
+Proof. exact ProofsSlots.slots_every_schedule. Qed.
+Print Assumptions C04_fetch_slots_every_schedule.
+
+(* progress: in every reachable state of a call that has not returned some move of the call itself is enabled
+   (a worker ends, or the loop gets a slot): it never waits for the client *)
+Theorem C04_fetch_dispatch_progress : forall W u fr cd ms, u < W ->
+  let s := exec false W (start u fr cd) ms in
+  finished s = false -> exists m s', m <> MCancel /\ step false W s m = Some s'.
+Proof. exact ProofsSlots.dispatch_progress. Qed.
+Print Assumptions C04_fetch_dispatch_progress.
+
+(* link to the correspondence run: the checker evaluated on the implementation's observations of a history
+   (CaseDefs.case_spec_ok, CSlots: every call returned, no slot in use afterwards) accepts what the model computes
+   for the returned/in-use part of every history on every corpus *)
+Theorem C04_slots_model_obs : forall g fs W steps, 1 <= W ->
+  Forall (fun o : sobs => fst (fst o) = true /\ snd (fst o) = 0) (slots_run g fs W 0 steps).
+Proof. exact ProofsCases.slots_run_ok. Qed.
+Print Assumptions C04_slots_model_obs.
+
+(* the seeded early exit after `case f.sem <- struct{}{}` (C04-m9: `if ctx.Err() != nil { …; break loop }` without
+   giving the slot back): W calls with a context that is already done use up the W slots; a later call with a
+   live context over a healthy fraction never returns, whatever the interleaving *)
+Example C04_fetch_slots_leaky_refuted :
+  exists W h fr, 1 <= W /\ Forall (eq WOk) fr /\
+    fold_left (fun v r => fst (fst (serve true W v r))) h 0 = W /\
+    (forall ms, ~ In MCancel ms -> finished (exec true W (start W fr false) ms) = false) /\
+    serve true W W (fr, false, []) = (W, false, false).
+Proof. exact ProofsSlots.fetch_slots_leaky_refuted. Qed.
+
+(* non-vacuity: a history with a failing, a panicking and two cancelled calls under non-trivial schedules *)
+Example C04_fetch_slots_nonvacuous :
+  history false 2 0 [([WOk; WErr; WOk], false, [MAcquire; MAcquire; MFinish 1; MCtxDone]);
+                     ([WOk; WOk; WOk], true, [MAcquire; MCtxDone]);
+                     ([WPanic], false, []);
+                     ([WOk; WOk; WOk], false, [MAcquire; MCancel; MAcquire; MFinish 0; MCtxDone]);
+                     ([WOk; WOk; WOk], false, [MAcquire; MFinish 0; MAcquire])]
+  = [(0, true, true); (0, true, true); (0, true, true); (0, true, true); (0, true, false)] /\
+  history true 2 0 [([WOk; WOk; WOk], true, [MAcquire; MCtxDone]); ([WOk; WOk], true, []); ([WOk], false, [])]
+  = [(1, true, true); (2, true, true); (2, false, false)].
+Proof. split; vm_compute; reflexivity. Qed.
 
 (* ------------------------------------------------------------------ generated definitions (Gen.v)
    Gen.v is regenerated from the Go sources on every run by harness/cmd/go2coq (spec: props/C04/gen.json).
